@@ -1748,8 +1748,8 @@ private theorem origin_maintTablet {ops : List StateOp} {rm : List Nat} {ns rc :
       unfold reResolve at h1
       simp only [hfail, fromRawReplicas] at h1
       by_cases hc : (resolveFailed (fun id => alGet id ns) r0).isEmpty = true
-      · rw [if_pos hc] at h1; cases h1; exact ⟨rfl, rfl⟩
-      · rw [if_neg hc] at h1; cases h1
+      · simp only [hc, if_true, Option.some.injEq] at h1; subst h1; exact ⟨rfl, rfl⟩
+      · simp [hc] at h1
     refine ⟨spec, f, l, r0, hm, by rw [hus.1, hrange.1]; exact hf, by rw [hus.2.1, hrange.2]; exact hl, ?_, ?_⟩
     · intro _; rw [rawOf_updateStale rc hrc]; exact hraw
     · intro r hr; rw [hus.2.2, hfn] at hr; cases hr
@@ -1829,8 +1829,8 @@ theorem held_tablets_complete (kss : List (String × Bool × List String)) (peer
             have hr' : r = raw := by
               simp only [Tablet.fromRaw, fromRawReplicas] at hr
               by_cases hc : (resolveFailed (translator st.known) raw).isEmpty = true
-              · rw [if_pos hc] at hr; cases hr
-              · rw [if_neg hc] at hr; cases hr; rfl
+              · simp [hc] at hr
+              · simp only [hc, Bool.false_eq_true, if_false, Option.some.injEq] at hr; exact hr.symm
             refine ⟨hr', ?_⟩
             rw [unresolved_is_known_part _ htr]
             exact List.filter_sublist
@@ -2308,6 +2308,18 @@ theorem route_first_attempt_owns_token (rc : RCluster) (cfg : Config) (r : RRequ
     rcases hg with hg | ⟨d, hd, hg⟩
     · exact ⟨a, ha, own a _ hg.1, Or.inl hg.1⟩
     · exact ⟨a, ha, own a _ hg.1, Or.inr ⟨d, hd, hg.1⟩⟩
+
+/-- **The reshard race** (`hnode` of `route_first_attempt_owns_token` is a SNAPSHOT assumption: `Node::sharder()` is read
+when the plan is computed, the pool again in `connection_for_shard`; the node may have restarted with other sharding
+parameters in between). What then happens, for every pool `p` the refiller has published by then and the shard number
+`stale` computed under the OLD sharder: selecting the connection does not panic and yields a connection of the CURRENT
+pool, reporting the current sharder; it is the connection of bucket `stale` if the current pool has a non-empty bucket
+with that number - which need not own the token under the new parameters - and any pooled connection otherwise. So
+the request is still served by the right NODE; only shard affinity is lost for that attempt. -/
+theorem reshard_race_served_by_current_pool (size : PoolSize) (evts : List PoolEvt) (rf : Refiller)
+    (h : (Refiller.init size).run evts = some rf) (p : PoolConns) (hp : rf.shared = some p) (stale : Nat) :
+    ConnectionOk p stale :=
+  connectionOk_of_poolOk p ((pool_filing_invariant size evts rf h).shared p hp) stale
 
 -- non-vacuity of `route_first_attempt_owns_token`: in `exRC` node 3 has 4 shards (msb 0), the others none. A refiller of
 -- node 3 that saw two connections (shards 2 and 0 of 4) publishes a pool whose sharder is the node's; an untouched
